@@ -823,6 +823,10 @@ def locate(unit, site):
     nth = site.kw.get('nth', 0)
 
     def pick(ms, what):
+        if nth == -1:
+            if not ms:
+                raise GenError("%s: %s not found" % (site.name, what))
+            return ms[-1]
         if len(ms) <= nth:
             raise GenError("%s: %s not found (occurrence %d)" % (site.name, what, nth))
         if site.kw.get('unique', True) and len(ms) != nth + 1 and 'nth' not in site.kw:
@@ -996,6 +1000,8 @@ def gen_record(unit, sname):
     items = ["  %s_%s : %s" % (sname, f, COQTY[t]) for f, t in fields.items()]
     lines.append(";\n".join(items))
     lines.append("}.")
+    dflt = {'Z': '0', 'cnum': '(c_of_Z 0)', 'c32': '(c32_of_Z 0)', 'bool': 'false'}
+    lines.append("Definition default_%s : %s := mk_%s %s." % (sname, sname, sname, " ".join(dflt[COQTY[t]] for t in fields.values())))
     # setters
     for f in fields:
         args = " ".join("(%s_%s s)" % (sname, g) if g != f else "v" for g in fields)
